@@ -34,7 +34,8 @@ def run(cx):
                  ("R17d", "request adapters forward, response processors reversed, own before parent"),
                  ("R17e", "auth adapters: absent-then-set of one header key; Basic = b64(id:secret); AUTH_TYPE set exactly for them"),
                  ("R17f", "connection choice: exactly one component; one cached derived connection per prefix from the base connection"),
-                 ("R17g", "urllib Request arguments derive from their namesakes")):
+                 ("R17g", "urllib Request arguments derive from their namesakes"),
+                 ("R17h", "body encoding by type: None -> no body, bytes -> as is, str -> utf-8, anything else -> JSON utf-8 with a default Content-Type; method default")):
         cx.rule(r, t)
     base = cx.cls(REL, "_HttpConnBase", "R17c")
     base_init = cx.func(REL, "_HttpConnBase.__init__", "R17a")
@@ -54,6 +55,7 @@ def run(cx):
     _r17e(cx, repo)
     _r17f(cx, get_conn)
     _r17g(cx, do_req)
+    _r17h(cx, do_req)
 
 
 # ------------------------------------------------------------------------------------------------ R17a
@@ -550,3 +552,65 @@ def _r17g(cx, do_req):
         st = enclosing_stmt(enc[0])
         ok = isinstance(st, ast.AugAssign) and is_name(st.target, "path") and isinstance(st.value, ast.BinOp) and const(st.value.left, str) and st.value.left.value == "?"
         cx.ob("R17g", st, ok, "path += '?' + urlencode(params)" if ok else "query string is not appended as '?' + urlencode(params)", stmt=norm(st) + " [form]")
+
+
+# ------------------------------------------------------------------------------------------------ R17h
+def _r17h(cx, do_req):
+    blk = [st for st in do_req.body if isinstance(st, ast.If) and any(isinstance(x, ast.Assign) and is_name(x.targets[0], "req_data") for x in ast.walk(st))]
+    cx.need(len(blk) == 1, "R17h", do_req, "body-encoding dispatch assigning req_data")
+
+    def hook(it, e, env):
+        nm = call_name(e)
+        if nm == "encode" and isinstance(e.func, ast.Attribute):
+            recv = it.ev(e.func.value, env)
+            enc = None
+            for a in e.args:
+                enc = a.value if const(a, str) else enc
+            for k in e.keywords:
+                if k.arg == "encoding" and const(k.value, str):
+                    enc = k.value.value
+            return K("bytes", None, ("encode", getattr(recv, "tag", repr(recv)), (enc or "utf-8").lower().replace("-", "")))
+        if nm == "dumps" and norm(e.func).startswith("json.") and e.args:
+            v = it.ev(e.args[0], env)
+            extra = tuple(sorted(k.arg for k in e.keywords))
+            return K("str", None, ("json", getattr(v, "tag", repr(v))) + extra)
+        return None
+    cases = [("None", C(None), ("none",)), ("bytes", K("bytes", None, "input"), ("same",)), ("str", K("str", None, "input"), ("encode", "input", "utf8")),
+             ("dict", K("dict", None, "input"), ("encode", ("json", "input"), "utf8")), ("list", K("list", None, "input"), ("encode", ("json", "input"), "utf8")),
+             ("other object", K("other", None, "input"), ("encode", ("json", "input"), "utf8")),
+             ("empty bytes", K("bytes", True, "input"), ("same",)), ("empty str", K("str", True, "input"), ("encode", "input", "utf8")),
+             ("empty dict", K("dict", True, "input"), ("encode", ("json", "input"), "utf8")), ("empty list", K("list", True, "input"), ("encode", ("json", "input"), "utf8"))]
+    for label, val, want in cases:
+        it = Interp(call_hook=hook)
+        outs = it.run(blk, {"data": val, "headers": K("dict", None, "hdr")})
+        got = set()
+        for o in outs:
+            v = o.env.get("req_data")
+            if o.how != "fall":
+                got.add((o.how, str(o.value)))
+            elif isinstance(v, C) and v.v is None:
+                got.add(("none",))
+            elif isinstance(v, K) and v.tag == "input":
+                got.add(("same",))
+            elif isinstance(v, K) and isinstance(v.tag, tuple):
+                got.add(v.tag)
+            else:
+                got.add(("?", repr(v)))
+        ok = got == {want}
+        cx.ob("R17h", blk[0], ok, f"data of kind {label}: body is {want}" if ok else f"data of kind {label}: body becomes {sorted(map(str, got))}, expected {want}", stmt=f"body for {label}")
+    # Content-Type default only for the JSON branch and only when absent
+    cts = [n for n in ast.walk(blk[0]) if isinstance(n, ast.Subscript) and isinstance(n.ctx, ast.Store) and const(n.slice, str) and n.slice.value.lower() == "content-type"]
+    ok = len(cts) == 1
+    if ok:
+        fs = {(norm(e), pol) for e, pol in facts(cts[0])}
+        st = enclosing_stmt(cts[0])
+        ok = ("'Content-Type' not in headers", True) in fs and ("isinstance(data, str)", False) in fs and ("isinstance(data, bytes)", False) in fs and norm(st.value) == "'application/json'" and cts[0].slice.value == "Content-Type"
+    cx.ob("R17h", cts[0] if cts else blk[0], ok, "JSON bodies get Content-Type: application/json unless the caller set one" if ok else "Content-Type default is not (JSON branch only, only when absent, same key)")
+    # method default
+    mb = [st for st in do_req.body if isinstance(st, ast.If) and norm(st.test) == "not method"]
+    ok = len(mb) == 1 and [norm(x) for x in mb[0].body] == ["method = 'POST' if data else 'GET'"] and [norm(x) for x in mb[0].orelse] == ["method = str(method).upper()"]
+    cx.ob("R17h", mb[0] if mb else do_req, ok, "method: given one upper-cased, else POST with a body / GET without" if ok else "method defaulting altered")
+    # response decoding
+    rd = [st for st in do_req.body if isinstance(st, ast.If) and norm(st.test) == "not raw_response"]
+    ok = len(rd) == 1 and any("decode('utf-8')" in norm(x) for x in rd[0].body) and any("json.loads" in norm(x) for x in ast.walk(rd[0])) and [norm(x) for x in rd[0].orelse] == ["ret_val = response"]
+    cx.ob("R17h", rd[0] if rd else do_req, ok, "response: raw object on request, else utf-8 text parsed as JSON when non-empty" if ok else "response decoding altered")
